@@ -4,6 +4,7 @@ pub mod prng;
 pub mod rdr;
 pub mod wire;
 pub mod c_rdr;
+pub mod sib;
 pub mod api;
 pub mod c_api;
 pub mod shard;
